@@ -1,6 +1,7 @@
 (* Pinned statements for C09: a changed statement or a new axiom fails the check. *)
 From SwimV Require Import Model.ReconText Proofs.ReconTextProofs Props.C09.
 From SwimV Require Import Model.ReconNum Proofs.ReconNumProofs.
+From SwimV Require Import Model.ReconBlob Proofs.ReconBlobProofs.
 Open Scope N_scope.
 Check (C09_text_roundtrip) : (forall t rest, match rest with [] => True | c :: _ => is_identifier_char c = false end -> text_token (write_string_literal t ++ rest) = (TokText t, rest)).
 Print Assumptions C09_text_roundtrip.
@@ -16,3 +17,7 @@ Check (C09_printed_integer_is_an_integer_text) : (forall z, exists v, int_of_tex
 Print Assumptions C09_printed_integer_is_an_integer_text.
 Check (C09_literal_kind_by_number) : (forall neg n, let v := classify neg n in let z := nz v in value_kind v = if ((- 2147483648 <=? z) && (z <=? 2147483647))%Z then VI32 else if ((- 9223372036854775807 <=? z) && (z <=? 9223372036854775807))%Z then VI64 else if ((0 <=? z) && (z <=? 18446744073709551615))%Z then VU64 else if (z <? 0)%Z then VBigInt else VBigUint).
 Print Assumptions C09_literal_kind_by_number.
+Check (C09_printed_blob_reads_back) : (forall bs rest, byte_list bs -> blob_follow_ok rest -> blob_token (print_blob bs ++ rest) = (BOk bs, rest)).
+Print Assumptions C09_printed_blob_reads_back.
+Check (C09_blob_literal_injective) : (forall a b, byte_list a -> byte_list b -> print_blob a = print_blob b -> a = b).
+Print Assumptions C09_blob_literal_injective.
